@@ -15,7 +15,7 @@ Local Open Scope Z_scope.
 Theorem C18_generated_predicates :
   (forall wc cwf n la tot, gen_chan_readable wc cwf n la tot = negb (wc || cwf || (la <? n) || negb (tot =? 0))) /\
   (forall tot wc cwf, gen_chan_writable tot wc cwf = ((0 <? tot) || wc || cwf)) /\
-  (forall n tot sb, flushes (gen_hw_flush n tot sb) = ((n =? 0) || (sb <=? tot))) /\
+  (forall n tot sb hw, flushes (gen_hw_flush n tot sb hw) = ((n =? 0) || (sb <=? tot) || (hw <? tot))) /\
   (forall cwf wc tot, gen_hw_after cwf wc tot = if cwf && (tot =? 0) then (false, true, true) else (cwf, wc, wc)) /\
   (forall n la now tmo, gen_maint_test n la (gen_maint_cutoff now tmo) = ((n =? 0) && (la <? now - tmo))) /\
   (forall now ncc itv acc ovf ml lim, gen_srv_readable now ncc itv acc ovf ml lim =
